@@ -98,6 +98,34 @@ def run(chk, prog):
                        'empties that list (blocks emptying it: %s): every later continue re-delivers them'
                        % (lst, [ci.loc(b) for b in clearing[lst]] or 'none'), ci.loc(bb), {'witness_blocks': w})
 
+    # ---- (a'') the same holds for any other place that hands state messages to the handler
+    for fn in sorted(prog.fns.values(), key=lambda f: f.p):
+        if fn.crate != 'bladeink' or fn.p == ci.p or prog.root_fn(fn).p == ci.p:
+            continue
+        gfn = None
+        for bb, t in fn.calls():
+            if not (is_dyn_call(t) and callee_short(t).endswith('ErrorHandler::error')) or len(t['args']) < 2:
+                continue
+            lists = fields_of(tr.prov(fn, t['args'][1])) & set(MSG_LISTS)
+            if not lists:
+                continue
+            gfn = gfn or cfg(fn)
+            for lst in sorted(lists):
+                clr = []
+                for b2, t2 in fn.calls():
+                    h2 = prog.fns.get(callee(t2))
+                    if h2 is not None and lst in cleared_fields(prog, h2, tr):
+                        clr.append(b2)
+                    elif callee_short(t2) in ('Vec::clear', 'Vec::drain', 'mem::take') and t2['args'] \
+                            and lst in fields_of(tr.prov(fn, t2['args'][0])):
+                        clr.append(b2)
+                ok_path, w = gfn.must_pass_through(bb, clr)
+                chk.decide(R_A, chk.key(R_A, prog.root_fn(fn).short, lst), bool(clr) and ok_path,
+                           'delivered list is emptied on every path from the delivery to return',
+                           '%s hands the messages of %s to the error handler and does not empty the list afterwards: the '
+                           'end of the next continue delivers the same messages again' % (prog.root_fn(fn).short, lst),
+                           fn.loc(bb), {'witness_blocks': w})
+
     # ---- (a') nothing is delivered while a rewind is still possible
     R_F = 'C13.no-delivery-while-a-rewind-is-pending'
     chk.rule(R_F, 'No call of ErrorHandler::error (and no clearing of the message lists) in continue_internal is reachable '
